@@ -76,7 +76,13 @@ def determinism(args):
         summary[mod] = {"plans": n, "excluded_for_watchdog": excluded, "diverged": diverged}
         print("%s: %d plans x 3 runs (1, 4, 16 workers): %d diverged, %d excluded (watchdog)" % (mod, n, len(diverged), excluded))
         bad += len(diverged)
-    json.dump(summary, open(os.path.join(VERIF, "evidence", "selftest_determinism.json"), "w"), indent=1)
+    path = os.path.join(VERIF, "evidence", "selftest_determinism.json")
+    try:
+        merged = json.load(open(path))
+    except Exception:
+        merged = {}
+    merged.update(summary)          # a partial run (some modules only) keeps the entries of the others
+    json.dump(merged, open(path, "w"), indent=1, sort_keys=True)
     return 1 if bad else 0
 
 
